@@ -99,6 +99,8 @@ pub struct BeState<V> {
     pub event_idx: Vec<bool>,
     pub mem: Option<GM>,
     pub update_memory_calls: usize,
+    /// (start, len) of every region of the memory handed over, sampled inside the latest notification
+    pub mem_at_notification: Vec<(u64, u64)>,
     pub update_memory_fail: bool,
     pub backends: Vec<Backend>,
     pub reset_calls: usize,
@@ -139,6 +141,7 @@ impl<V> Be<V> {
                 event_idx: Vec::new(),
                 mem: None,
                 update_memory_calls: 0,
+                mem_at_notification: Vec::new(),
                 update_memory_fail: false,
                 backends: Vec::new(),
                 reset_calls: 0,
@@ -222,6 +225,10 @@ impl<V: VringT<GM> + Send + Sync + 'static> VhostUserBackend for Be<V> {
             return Err(std::io::Error::other("scripted update_memory failure"));
         }
         st.update_memory_calls += 1;
+        {
+            use vm_memory::{GuestAddressSpace, GuestMemory, GuestMemoryRegion};
+            st.mem_at_notification = mem.memory().iter().map(|r| (r.start_addr().0, r.len())).collect();
+        }
         st.mem = Some(mem);
         Ok(())
     }
